@@ -150,6 +150,7 @@ func (c *e2eCtx) trackAndJudge(s *scenario, decoys bool, r *rand.Rand) {
 		c.count("base:INIT")
 	}
 	wl := filepath.Join(s.dir, ".git", "verif-writelog")
+	cfgOnDisk, _ := os.ReadFile(filepath.Join(s.dir, "goat.yaml")) // written by the harness or by goat init
 	pm := c.predictDiff(s)
 	run := proj.RunGoat(c.goat, s.dir, []string{"GOAT_VERIF_WRITELOG=" + wl}, "track")
 	rp := func(extra map[string]any) map[string]any {
@@ -221,7 +222,7 @@ func (c *e2eCtx) trackAndJudge(s *scenario, decoys bool, r *rand.Rand) {
 	for k, v := range s.newTree {
 		before[k] = v
 	}
-	before["goat.yaml"] = s.cfg.YAML()
+	before["goat.yaml"] = string(cfgOnDisk)
 	for _, p := range unionKeys(before, after) {
 		if before[p] == after[p] || p == genFile {
 			continue
